@@ -83,6 +83,10 @@ def main():
         common.run_generic(run, tier)
     except Exception:
         run.engine_error('generic frame obligations crashed: ' + traceback.format_exc()[-1200:].replace('\n', ' | '))
+    try:
+        run.extraction_obligation()
+    except Exception:
+        pass
     if (run.undecided or run.engine_errors) and not any(v[2] for v in run.violations):
         # last resort before reporting "undecided" (or an engine failure): the property's native searches and the generic
         # history search (bounded refute mode).  A failing input found here is replayed on the real code, so it stands
